@@ -23,7 +23,7 @@ def gen_cases(tier, seed):
     out = []
     for i in range(n):
         s = env.seed_for(seed, ID, tier, i)
-        r = random.Random(s)
+        r = random.Random(env.seed_for(s, "descriptor"))  # independent of the stream run_case derives from the same seed
         out.append({"seed": s, "n": r.randint(2, 20 if tier == "quick" else 50), "steps": r.randint(0, 8)})
     return out
 
